@@ -369,3 +369,110 @@ theorem nrunCmd_grows (sc : Script) (cfg : NCfg) (qmax : Nat) : ∀ f, NSubGrows
 
 end N5
 end TM
+
+namespace TM
+namespace N5
+
+/-! ### the finalize marker lies inside the trace of its event (used for the unqueued clause) -/
+
+theorem ncallbacks_grows (sub : NSub) (hsub : NSubGrows sub) (sc : Script) (cfg : NCfg) (slot : Slot) (x : Ctx)
+    (cbs : List Nat) (s : NSt) : NGrows (ncallbacks sub sc cfg slot x cbs s) s.log :=
+  NGrows.of_post (ncallbacks_syn (blockT sub hsub x) sc cfg true slot cbs
+    (fun _ _ _ _ _ _ => ⟨(), trivial, trivial⟩) () s trivial)
+
+theorem tryExcept_grows (sub : NSub) (hsub : NSubGrows sub) (sc : Script) (cfg : NCfg) (x : Ctx) (ev : Nat) (s : NSt) :
+    NGrows (tryExcept sub sc cfg x ev s) s.log :=
+  NGrows.of_post (tryExcept_blk (blockT sub hsub x) sc cfg ev () s trivial)
+
+/-- the first item a callback invocation appends is its `call` item -/
+theorem ninvoke_first (sub : NSub) (hsub : NSubGrows sub) (sc : Script) (cfg : NCfg) (slot : Slot) (x : Ctx) (c : Nat)
+    (s : NSt) : ∀ s', (ninvoke sub sc cfg slot x c s).state? = some s' →
+      ∃ g, s'.log = s.log ++ .call slot c x.model x.tag (confMask cfg s.conf) :: g := by
+  intro s' h
+  have hg := NGrows.of_post (nrunCmds_post (blockT sub hsub x) true (sc c (s.count c)).cmds ()
+    (({ s with counts := aset c (s.count c + 1) s.counts } : NSt).emit
+      (.call slot c x.model x.tag (confMask cfg s.conf))) trivial)
+  unfold ninvoke at h
+  simp only [] at h
+  cases hr : nrunCmds sub (sc c (s.count c)).cmds (({ s with counts := aset c (s.count c + 1) s.counts } : NSt).emit
+      (.call slot c x.model x.tag (confMask cfg ({ s with counts := aset c (s.count c + 1) s.counts } : NSt).conf))) with
+  | oof => rw [hr] at h; simp [Res.state?] at h
+  | err e s3 =>
+    rw [hr] at h; simp only [Res.state?, Option.some.injEq] at h; subst h
+    obtain ⟨g, hg1⟩ := hg s3 (by rw [show confMask cfg s.conf = confMask cfg
+      ({ s with counts := aset c (s.count c + 1) s.counts } : NSt).conf from rfl, hr]; rfl)
+    exact ⟨g ++ [.done c (.raise e)], by simp [NSt.emit, hg1]⟩
+  | ok u s3 =>
+    rw [hr] at h
+    obtain ⟨g, hg1⟩ := hg s3 (by rw [show confMask cfg s.conf = confMask cfg
+      ({ s with counts := aset c (s.count c + 1) s.counts } : NSt).conf from rfl, hr]; rfl)
+    cases ho : (sc c (s.count c)).out with
+    | ret b =>
+      simp only [ho, Res.state?, Option.some.injEq] at h; subst h
+      exact ⟨g ++ [.done c (.ret b)], by simp [NSt.emit, hg1]⟩
+    | raise e =>
+      simp only [ho, Res.state?, Option.some.injEq] at h; subst h
+      exact ⟨g ++ [.done c (.raise e)], by simp [NSt.emit, hg1]⟩
+
+/-- the `finally:` block starts with the `call` item of the first finalize callback -/
+theorem nfinalize_first (sub : NSub) (hsub : NSubGrows sub) (sc : Script) (cfg : NCfg) (fin0 : Nat) (rest : List Nat)
+    (hfin : cfg.finalize = fin0 :: rest) (x : Ctx) (s : NSt) :
+    ∀ s', nfinalize sub sc cfg x s = some s' →
+      ∃ g, s'.log = s.log ++ .call .finalize fin0 x.model x.tag (confMask cfg s.conf) :: g := by
+  intro s' h
+  unfold nfinalize at h
+  rw [hfin] at h
+  simp only [ncallbacks] at h
+  have hfirst := ninvoke_first sub hsub sc cfg .finalize x fin0 (s.emitG (.fin x.tag (confMask cfg s.conf)))
+  cases hr : ninvoke sub sc cfg .finalize x fin0 (s.emitG (.fin x.tag (confMask cfg s.conf))) with
+  | oof => simp [hr, Res.bind] at h
+  | err e s1 =>
+    simp only [hr, Res.bind, Option.some.injEq] at h; subst h
+    obtain ⟨g, hg⟩ := hfirst s1 (by simp [hr, Res.state?])
+    exact ⟨g, hg⟩
+  | ok b s1 =>
+    obtain ⟨g, hg⟩ := hfirst s1 (by simp [hr, Res.state?])
+    simp only [hr, Res.bind] at h
+    have hrest := ncallbacks_grows sub hsub sc cfg .finalize x rest s1
+    cases hr2 : ncallbacks sub sc cfg .finalize x rest s1 with
+    | oof => simp [hr2] at h
+    | ok u s2 =>
+      simp only [hr2, Option.some.injEq] at h; subst h
+      obtain ⟨g2, hg2⟩ := hrest s2 (by simp [hr2, Res.state?])
+      exact ⟨g ++ g2, by rw [hg2, hg]; simp [NSt.emitG]⟩
+    | err e s2 =>
+      simp only [hr2, Option.some.injEq] at h; subst h
+      obtain ⟨g2, hg2⟩ := hrest s2 (by simp [hr2, Res.state?])
+      exact ⟨g ++ g2, by rw [hg2, hg]; simp [NSt.emitG]⟩
+
+/-- every completed run of `_trigger_event` contains the start of the first finalize callback of ITS event -/
+theorem ntriggerEvent_complete (sub : NSub) (hsub : NSubGrows sub) (sc : Script) (cfg : NCfg) (fin0 : Nat)
+    (rest : List Nat) (hfin : cfg.finalize = fin0 :: rest) (x : Ctx) (ev : Nat) (s : NSt) :
+    ∀ s', (ntriggerEvent sub sc cfg x ev s).state? = some s' →
+      ∃ pre mask post, s'.log = s.log ++ pre ++ .call .finalize fin0 x.model x.tag mask :: post := by
+  intro s' h
+  rw [ntriggerEvent_eq] at h
+  have hg := tryExcept_grows sub hsub sc cfg x ev s
+  cases hr : tryExcept sub sc cfg x ev s with
+  | oof => simp [hr, Res.state?] at h
+  | ok b s1 =>
+    obtain ⟨pre, hpre⟩ := hg s1 (by simp [hr, Res.state?])
+    simp only [hr] at h
+    cases hf : nfinalize sub sc cfg x s1 with
+    | none => simp [hf, Res.state?] at h
+    | some s2 =>
+      simp only [hf, Res.state?, Option.some.injEq] at h; subst h
+      obtain ⟨g, hg2⟩ := nfinalize_first sub hsub sc cfg fin0 rest hfin x s1 s2 hf
+      exact ⟨pre, _, g, by rw [hg2, hpre]⟩
+  | err e s1 =>
+    obtain ⟨pre, hpre⟩ := hg s1 (by simp [hr, Res.state?])
+    simp only [hr] at h
+    cases hf : nfinalize sub sc cfg x s1 with
+    | none => simp [hf, Res.state?] at h
+    | some s2 =>
+      simp only [hf, Res.state?, Option.some.injEq] at h; subst h
+      obtain ⟨g, hg2⟩ := nfinalize_first sub hsub sc cfg fin0 rest hfin x s1 s2 hf
+      exact ⟨pre, _, g, by rw [hg2, hpre]⟩
+
+end N5
+end TM
